@@ -35,6 +35,64 @@ pub fn oracle(damaged: &[u8]) -> Result<(), (String, String)> {
     Ok(())
 }
 
+/// the damaged frame in a stream next to its undamaged original (a corrupted retransmission): the frame iterator must
+/// deliver exactly what the reference scanner delivers, in particular not the damaged copy
+pub fn oracle_in_stream(original: &[u8], damaged: &[u8]) -> Result<(), (String, String)> {
+    for order in 0..3 {
+        let mut buf: Vec<u8> = Vec::with_capacity(original.len() * 3);
+        match order {
+            0 => {
+                buf.extend_from_slice(original);
+                buf.extend_from_slice(damaged);
+            }
+            1 => {
+                buf.extend_from_slice(damaged);
+                buf.extend_from_slice(original);
+            }
+            _ => {
+                buf.extend_from_slice(original);
+                buf.extend_from_slice(damaged);
+                buf.extend_from_slice(original);
+            }
+        }
+        let (rf, rt) = crate::frame::ref_scan_all(&buf);
+        let base = buf.as_ptr() as usize;
+        let mut it = MsgFrameIter::new(&buf);
+        let mut frames: Vec<(usize, usize)> = Vec::new();
+        for m in &mut it {
+            let a = (m.frame_data().as_ptr() as usize).wrapping_sub(base);
+            frames.push((a, a + m.frame_len()));
+            if frames.len() > buf.len() {
+                break;
+            }
+        }
+        if frames != rf || it.consumed() != rt {
+            return Err((
+                "c04:iterator-delivers-damaged-copy".into(),
+                format!("stream order {} (original/damaged): iterator frames {:?} consumed {}; reference {:?} consumed {}", order, frames, it.consumed(), rf, rt),
+            ));
+        }
+        // the same through repeated next_msg_frame calls
+        let mut idx = 0usize;
+        let mut got: Vec<(usize, usize)> = Vec::new();
+        while idx < buf.len() {
+            let (c, f) = next_msg_frame(&buf[idx..]);
+            let had = f.is_some();
+            if let Some(m) = f {
+                got.push((idx + c - m.frame_len(), idx + c));
+            }
+            idx += c;
+            if !had {
+                break;
+            }
+        }
+        if got != rf {
+            return Err(("c04:scanner-delivers-damaged-copy".into(), format!("stream order {}: scanner frames {:?}; reference {:?}", order, got, rf)));
+        }
+    }
+    Ok(())
+}
+
 fn flip(buf: &mut [u8], bit: usize) {
     buf[bit / 8] ^= 0x80 >> (bit % 8);
 }
@@ -51,6 +109,8 @@ fn viol(sig: String, msg: String, f: &[u8], bits: &[usize], how: &str) -> Violat
 struct Acc {
     ev: Evidence,
     vs: Vec<Violation>,
+    counter: u64,
+    in_stream: u64,
 }
 impl Acc {
     fn try_damage(&mut self, f: &[u8], work: &mut Vec<u8>, bits: &[usize], how: &str) {
@@ -60,7 +120,14 @@ impl Acc {
             flip(work, b);
         }
         self.ev.evaluations += 1;
-        match oracle(work) {
+        self.counter += 1;
+        let mut r = oracle(work);
+        // every 8th damaged frame is additionally placed in a stream next to its original (cost: three scans)
+        if r.is_ok() && (self.counter % 8 == 0 || bits.len() == 1 && self.counter % 2 == 0) && f.len() <= 300 {
+            r = oracle_in_stream(f, work);
+            self.in_stream += 1;
+        }
+        match r {
             Ok(()) => {
                 // distinct key: frame hash is mixed by the caller through `how`-independent hashing of the damaged bytes
                 self.ev.nontrivial_hash(hash_bytes(work));
@@ -180,7 +247,7 @@ pub fn run(ctx: &Ctx, replay: Option<&J>) -> CheckResult {
         {every single bit in reserved bits/payload/checksum; all bit pairs for frames <=24 bytes, sampled pairs otherwise; random odd-weight \
         patterns 3..31; bursts of every length 2..=24 (first and last bit flipped, random interior) at every start (short frames / thorough) \
         or at region ends + sampled starts}; preamble and the 10 length bits are not damaged. oracle: MessageFrame::new == Err(NotValid), \
-        scanner result equals the reference scanner and delivers nothing at offset 0. every damaged frame is non-trivial; distinct = hash of damaged bytes"
+        scanner result equals the reference scanner and delivers nothing at offset 0; a sample of the damaged frames (every second single-bit one, every 8th other, frames <=300 bytes) is also placed in streams original+damaged, damaged+original, original+damaged+original where MsgFrameIter and repeated next_msg_frame must deliver exactly the reference scanner's frames. every damaged frame is non-trivial; distinct = hash of damaged bytes"
         .to_string();
     let assumptions = vec![
         "damage confined to reserved bits, payload and checksum as the statement says".to_string(),
@@ -189,7 +256,7 @@ pub fn run(ctx: &Ctx, replay: Option<&J>) -> CheckResult {
     if let Some(case) = replay {
         let f = unhex(case["frame"].as_str().unwrap_or("")).unwrap_or_default();
         let bits: Vec<usize> = case["flip_bits"].as_array().map(|a| a.iter().filter_map(|x| x.as_u64()).map(|x| x as usize).collect()).unwrap_or_default();
-        let mut acc = Acc { ev: Evidence::new(), vs: Vec::new() };
+        let mut acc = Acc { ev: Evidence::new(), vs: Vec::new(), counter: 0, in_stream: 0 };
         let mut work = Vec::new();
         acc.try_damage(&f, &mut work, &bits, "replay");
         return CheckResult { evidence: acc.ev, rule, assumptions, violations: acc.vs };
@@ -214,7 +281,7 @@ pub fn run(ctx: &Ctx, replay: Option<&J>) -> CheckResult {
         .par_iter()
         .enumerate()
         .map(|(i, (name, f))| {
-            let mut acc = Acc { ev: Evidence::new(), vs: Vec::new() };
+            let mut acc = Acc { ev: Evidence::new(), vs: Vec::new(), counter: 0, in_stream: 0 };
             acc.ev.sample_cap = 1;
             let mut rng = ctx.rng("c04", i as u64);
             // every frame of the pool must itself be valid
@@ -228,10 +295,13 @@ pub fn run(ctx: &Ctx, replay: Option<&J>) -> CheckResult {
         .collect();
     let mut ev = Evidence::new();
     let mut vs = Vec::new();
+    let mut in_stream = 0u64;
     for a in parts {
+        in_stream += a.in_stream;
         ev.merge(a.ev);
         vs.extend(a.vs);
     }
+    ev.extra.insert("damaged_frames_also_scanned_in_a_stream_next_to_their_original".into(), json!(in_stream));
     ev.extra.insert("frames_in_pool".into(), json!(frames.len()));
     ev.extra.insert("golden_frames".into(), json!(golden));
     vs.truncate(5);
